@@ -224,9 +224,10 @@ def hash_tree(root):
 FRUGAL = os.path.join(vlib.BIN, "frugal")
 
 
-def run_frugal(cwd, file_arg, gen, out_arg, out_abs, recurse=True):
+def run_frugal(cwd, file_arg, gen, out_arg, out_abs, recurse=True, keep_out=False):
     """One compilation in a fresh process. Returns (rc, hashes or message)."""
-    shutil.rmtree(out_abs, ignore_errors=True)
+    if not keep_out:
+        shutil.rmtree(out_abs, ignore_errors=True)
     try:
         p = subprocess.run([FRUGAL] + (["-r"] if recurse else []) + ["-gen", gen, "-out", out_arg, file_arg], cwd=cwd,
                            capture_output=True, timeout=120)
@@ -366,6 +367,15 @@ def run(ctx, br):
                 o = os.path.join(outs, tag, "maindir")
                 jobs.append((prog, gen, "maindir-cwd", os.path.join(a, os.path.dirname(prog["main"])),
                              os.path.basename(prog["main"]), o, o))
+            # the -out directory is not empty: it holds what another option set of the same language generated from the
+            # same program just before (what this run emits must not depend on what it finds there)
+            lang = gen.split(":")[0]
+            others = [g for g in gens if g.split(":")[0] == lang and g != gen]
+            # (not for use_vendor: the vendored packages do not exist here, goimports then drops their imports and looks for
+            # a package of that name around the -out directory - third-party behaviour in a situation real users do not have)
+            if others and "use_vendor" not in gen:
+                o = os.path.join(outs, tag, "reused")
+                jobs.append((prog, gen, "reused-out:" + others[(gi + pid) % len(others)], a, prog["main"], o, o))
             # cwd is the parent of the source root; relative file and an unclean relative -out
             par = os.path.dirname(b)
             jobs.append((prog, gen, "parent-cwd-unclean-out", par, os.path.join(os.path.basename(b), prog["main"]),
@@ -374,7 +384,11 @@ def run(ctx, br):
     def do(job):
         prog, gen, label, cwd, fa, oa, oabs = job
         os.makedirs(os.path.dirname(oabs), exist_ok=True)
-        r = run_frugal(cwd, fa, gen, oa, oabs)
+        if label.startswith("reused-out:"):
+            r0 = run_frugal(cwd, fa, label.split(":", 1)[1], oa, oabs)
+            r = run_frugal(cwd, fa, gen, oa, oabs, keep_out=True) if r0[0] == 0 else r0
+        else:
+            r = run_frugal(cwd, fa, gen, oa, oabs)
         shutil.rmtree(oabs, ignore_errors=True)      # only the hashes are kept
         return r
 
@@ -403,10 +417,15 @@ def run(ctx, br):
         key = (prog["id"], gen)
         if key in compile_errors or key not in base or label == "rep0" or rc != 0:
             continue
-        d = diff_hashes(base[key], res)
+        if label.startswith("reused-out:"):
+            # files of the other option set may lie around; every file THIS option set emits must be as in a fresh directory
+            d = [k for k in sorted(base[key]) if base[key][k] != res.get(k)]
+        else:
+            d = diff_hashes(base[key], res)
         if d:
             oracle_fail += 1
-            kind = "repeated run" if label.startswith("rep") else "location change (%s)" % label
+            kind = "repeated run" if label.startswith("rep") and not label.startswith("reused") else \
+                ("a non-empty -out directory (%s)" % label if label.startswith("reused") else "location change (%s)" % label)
             ctx.violation("C19 oracle: output differs across %s" % kind, {
                 "gen": gen, "variant": label, "differing_files": d[:10],
                 "first": {"cwd": prog["rootA"], "cmd": "frugal -r -gen %s -out <out> %s" % (gen, prog["main"])},
